@@ -898,3 +898,114 @@ func runLockPaired(p *Program, r *RuleResult) {
 		r.add("first-party code", "lock-calls-scanned", Undecided, "", fmt.Sprintf("only %d functions scanned", nFn))
 	}
 }
+
+// R-CLOSE-OWNER (C19, C13): a channel the process goroutines send on is closed by one of
+// them, never by a service goroutine.
+func init() {
+	register(&Rule{Name: "R-CLOSE-OWNER", Min: 1,
+		Doc: "every close of a channel held in a struct field in package process: if functions that run on the interpreter's process goroutines (reachable from the go statements that start a *Process method) send on that field, the closing function runs on those goroutines too (a process closing the channels it provides). A service goroutine – the monitor loop, the heartbeat receiver – closing a channel that processes still report on turns their next send into `panic: send on closed channel`, which takes the whole host down while a later, unrelated program is running",
+		Run: runCloseOwner})
+}
+
+func runCloseOwner(p *Program, r *RuleResult) {
+	var entries []*ssa.Function
+	for _, fn := range p.SrcFuncs {
+		if fn.Pkg == nil || fn.Pkg.Pkg.Path() != processPkg {
+			continue
+		}
+		for _, c := range p.callsIn(fn) {
+			if g, ok := c.(*ssa.Go); ok {
+				if sc := g.Common().StaticCallee(); sc != nil && sc.Signature.Recv() != nil && isNamed(sc.Signature.Recv().Type(), processPkg, "Process") {
+					entries = append(entries, sc)
+				}
+			}
+		}
+	}
+	if len(entries) == 0 {
+		r.add(processPkg, "process-goroutine-entries", Undecided, "", "no go statement starting a *Process method found")
+		return
+	}
+	inGo := p.reachableFuncs(entries, useCHA)
+	fieldKey := func(v ssa.Value) string {
+		if ld, ok := v.(*ssa.UnOp); ok {
+			v = ld.X
+		}
+		switch x := v.(type) {
+		case *ssa.FieldAddr:
+			if nt := namedOf(x.X.Type()); nt != nil {
+				_, f, _ := fieldNameOf(x)
+				return nt.Obj().Name() + "." + f
+			}
+		case *ssa.Field:
+			if nt := namedOf(x.X.Type()); nt != nil {
+				_, f, _ := fieldNameOf(x)
+				return nt.Obj().Name() + "." + f
+			}
+		}
+		return ""
+	}
+	// senders per field, on process goroutines
+	senders := map[string]string{}
+	for fn := range inGo {
+		if fn.Blocks == nil {
+			continue
+		}
+		for _, b := range fn.Blocks {
+			for _, in := range b.Instrs {
+				switch x := in.(type) {
+				case *ssa.Send:
+					if k := fieldKey(x.Chan); k != "" {
+						senders[k] = fnName(fn)
+					}
+				case *ssa.Select:
+					for _, st := range x.States {
+						if st.Dir == types.SendOnly {
+							if k := fieldKey(st.Chan); k != "" {
+								senders[k] = fnName(fn)
+							}
+						}
+					}
+				}
+			}
+		}
+	}
+	n := 0
+	var fns []*ssa.Function
+	for _, fn := range p.SrcFuncs {
+		pk := fn.Pkg
+		if pk == nil && fn.Parent() != nil {
+			pk = fn.Parent().Pkg
+		}
+		if pk != nil && pk.Pkg.Path() == processPkg {
+			fns = append(fns, fn)
+		}
+	}
+	sort.Slice(fns, func(i, j int) bool { return fnName(fns[i]) < fnName(fns[j]) })
+	for _, fn := range fns {
+		ord := 0
+		for _, c := range p.callsIn(fn) {
+			bi, ok := c.Common().Value.(*ssa.Builtin)
+			if !ok || bi.Name() != "close" || len(c.Common().Args) != 1 {
+				continue
+			}
+			k := fieldKey(c.Common().Args[0])
+			if k == "" {
+				continue
+			}
+			n++
+			ord++
+			construct := fmt.Sprintf("close#%d:%s", ord, k)
+			who, sent := senders[k]
+			switch {
+			case !sent:
+				r.add(fnName(fn), construct, Holds, p.instrPos(c), "no process goroutine sends on this field")
+			case inGo[fn]:
+				r.add(fnName(fn), construct, Holds, p.instrPos(c), "closed on a process goroutine (the provider closing its own channels)")
+			default:
+				r.add(fnName(fn), construct, Violated, p.instrPos(c),
+					fmt.Sprintf("%s is closed by a function that does not run on a process goroutine, while processes send on it (%s): a process that reports after the close panics with `send on closed channel` and ends the host process", k, who))
+			}
+		}
+	}
+	r.count("closes of channel fields", n)
+}
